@@ -39,11 +39,12 @@ ANTI = ("Antitarget", "Background")
 @st.composite
 def strategy(draw):
     nauto = draw(st.integers(2, 5))
-    chroms = ["chr%d" % k for k in sorted(draw(st.lists(st.integers(1, 22), min_size=nauto, max_size=nauto, unique=True)))]
+    style = draw(st.sampled_from(["chr", "chr", ""]))  # chromosome naming: chr1..chrX or 1..X
+    chroms = [style + "%d" % k for k in sorted(draw(st.lists(st.integers(1, 22), min_size=nauto, max_size=nauto, unique=True)))]
     if draw(st.booleans()):
-        chroms.append("chrX")
+        chroms.append(style + "X")
     if draw(st.integers(0, 3)) == 0:
-        chroms.append("chrY")
+        chroms.append(style + "Y")
     return {
         "chroms": chroms, "seed": draw(st.integers(0, 2 ** 31)),
         "clusters": draw(st.one_of(st.integers(1, 3), st.integers(2, 12))), "max_in_cluster": draw(st.integers(1, 6)),
@@ -85,12 +86,12 @@ def build(case):
     used = set()
     for i, b in enumerate(uni):
         r = dict(b)
-        on_sex = b["chromosome"] in ("chrX", "chrY")
+        on_sex = b["chromosome"] in ("chrX", "chrY", "X", "Y")
         if case["pooled"]:
             r["log2"] = float(profile[i]) - (1.0 if on_sex else 0.0)
             r["spread"] = float(spreads[i])
         else:
-            r["log2"] = -1.0 if b["chromosome"] == "chrY" else 0.0
+            r["log2"] = -1.0 if b["chromosome"] in ("chrY", "Y") else 0.0
             r["spread"] = 0.0
         r["depth"] = float(2 ** r["log2"] * 100)
         r["gc"] = float(gcs[i])
@@ -313,7 +314,8 @@ def nontrivial(case):
 
 
 def classify(case):
-    labs = ["ref:" + ("pooled" if case["pooled"] else "flat"), "anti:" + case["anti"]]
+    labs = ["ref:" + ("pooled" if case["pooled"] else "flat"), "anti:" + case["anti"],
+            "naming:" + ("chr" if case["chroms"][0].startswith("chr") else "plain")]
     if case["perm"]:
         labs.append("permuted:" + "+".join(case["perm"]))
     if case["negative"]:
